@@ -36,7 +36,7 @@ fn check_exactly_once(rep: &mut Report, kind: Kind, idx: u64, bi: usize, batch: 
 fn main() {
     let cli = Cli::parse();
     let mut rep = Report::new("C06", &cli);
-    rep.note("rule", json!("case = BatchSort / BatchVisualSort with distance shards 1..4 x voting shards 1..4 and a sequence of 4..10 batches over 1..5 scenes (an eighth of the cases: wide batches of 8..40 scenes), under one of the schedules {free, seeded random delay plan over all vote.* / batch.* / store.* schedule points, every voting thread stalled at vote.result.send (bounded(1) back-pressure), predict loop stalled after each batch.scene.dispatched, voting thread stalled at vote.monitor.dec while the next predict already waits on the monitor} and one of the two retrieval disciplines the property allows {same thread after predict; consumer thread started before predict with the next batch submitted while it is still draining}. Monitors: (1) exactly-once: every batch delivers exactly one result per submitted scene, each with one record per detection in order; (2) refinement: per scene the grouping (up to an id bijection built incrementally) and the boxes / epochs / lengths (bit-exact) equal those of Sort / VisualSort run on that scene's sequence of detection lists, in same-thread mode also the stored state of every touched track (histories, gallery multiset, collected count, filter state) and every batch scene call is itself judged by the C02 / C12 references; grouping differences go through the explain-divergence oracle; (3) progress: a quiescence detector (all threads sleeping, no CPU time, no hook event for 4 s) turns a hang of predict / get / Drop into a deadlock violation with the last hook site of every thread. Non-trivial: (case) with >= 2 scenes per batch and >= 2 voting threads or a stalling schedule; distinct by case hash; distinct hook-order signatures are counted."));
+    rep.note("rule", json!("case = BatchSort / BatchVisualSort with distance shards 1..4 x voting shards 1..4 and a sequence of 4..10 batches over 1..5 scenes (an eighth of the cases: wide batches of 8..40 scenes), under one of the schedules {free, seeded random delay plan over all vote.* / batch.* / store.* schedule points, every voting thread stalled at vote.result.send (bounded(1) back-pressure), predict loop stalled after each batch.scene.dispatched, voting thread stalled at vote.monitor.dec while the next predict already waits on the monitor, every store write of the voting threads stalled} and one of the two retrieval disciplines the property allows {same thread after predict; consumer thread started before predict with the next batch submitted while it is still draining}. Monitors: (1) exactly-once: every batch delivers exactly one result per submitted scene, each with one record per detection in order; (2) refinement: per scene the grouping (up to an id bijection built incrementally) and the boxes / epochs / lengths (bit-exact) equal those of Sort / VisualSort run on that scene's sequence of detection lists, in same-thread mode also the stored state of every touched track (histories, gallery multiset, collected count, filter state) and every batch scene call is itself judged by the C02 / C12 references; grouping differences go through the explain-divergence oracle; (3) progress: a quiescence detector (all threads sleeping, no CPU time, no hook event for 4 s) turns a hang of predict / get / Drop into a deadlock violation with the last hook site of every thread. Non-trivial: (case) with >= 2 scenes per batch and >= 2 voting threads or a stalling schedule; distinct by case hash; distinct hook-order signatures are counted."));
     rep.note("assumptions", json!(["absence of deadlock is claimed only for the schedules observed (no explicit-state exploration of the monitor/bounded-channel protocol in this family)", "a stall in which threads keep consuming CPU is inconclusive, never a violation"]));
     let ctl = if cli.small { None } else { Some(Controller::install()) };
     let wd = if cli.small { None } else { Some(Watchdog::start(&cli, "C06", ctl.clone())) };
@@ -90,7 +90,7 @@ fn main() {
             continue;
         }
         rep.max("max_scenes_in_one_batch", batches.iter().map(|b| b.len()).max().unwrap_or(0) as f64);
-        let schedule = if cli.small { "free" } else { *rng.pick(&["free", "delay", "delay", "stall:vote.result.send", "stall:batch.scene.dispatched", "stall:vote.monitor.dec"]) };
+        let schedule = if cli.small { "free" } else { *rng.pick(&["free", "delay", "delay", "stall:vote.result.send", "stall:batch.scene.dispatched", "stall:vote.monitor.dec", "stall:vote.store_write"]) };
         let consumer_thread = rng.chance(0.4);
         let plan_seed = rng.u64();
         rep.eval();
@@ -108,9 +108,12 @@ fn main() {
                     let site: &'static str = match &s[6..] {
                         "vote.result.send" => "vote.result.send",
                         "batch.scene.dispatched" => "batch.scene.dispatched",
+                        "vote.store_write" => "vote.store_write",
                         _ => "vote.monitor.dec",
                     };
-                    c.set_mode(Mode::Stall { site, us: 2000 + plan_seed % 15000, seed: plan_seed });
+                    // (store writes happen once per detection: shorter stalls there)
+                    let us = if site == "vote.store_write" { 100 + plan_seed % 1400 } else { 2000 + plan_seed % 15000 };
+                    c.set_mode(Mode::Stall { site, us, seed: plan_seed });
                 }
             }
         }
